@@ -32,3 +32,4 @@ def run(chk):
     twins.rule_token_agreement(chk, cf.PROGRAM[0] or cf.Program(), 'K1', floor=150)
     from . import aead
     aead.rule_mac_source(chk, P, 'A1', floor=16)
+    aead.rule_consume_and_clear(chk, P, 'A2')
